@@ -73,7 +73,9 @@ func checkGenerated(src []byte, f pvcase.Flags) error {
 		{"Statistics option", has("func Statistics("), !f.Optimize},
 		{"left recursion runtime", has("parseRuleRecursiveLeader"), f.LeftRec},
 		{"rule.leader field", has("leftRecursive bool"), f.LeftRec},
-		{"basic latin fast path", has("chr.basicLatinChars[cur] != chr.inverted"), f.BasicLatin},
+		// the table variant is recognised by ANY read of the table (the exact shape of the fast path is
+		// pigeon's business: a refactoring of it must not stop the hosts from being generated)
+		{"basic latin table read", has("chr.basicLatinChars["), f.BasicLatin},
 		{"rangeTable function", has("func rangeTable("), true},
 		{"func main", has("func main("), false},
 	}
